@@ -27,5 +27,9 @@ Record config := {
   c_manager_switchover : bool;
   c_manager_election_delay : Z;
   c_repl_mon : bool;
-  c_master_first_adjust : bool
+  c_master_first_adjust : bool;
+  c_offline_enable_lag : Z;            (* seconds *)
+  c_offline_disable_lag : Z;           (* seconds *)
+  c_offline_enable_interval : Z;       (* ns *)
+  c_offline_max_pct : Z
 }.
